@@ -2,6 +2,7 @@ import Srtla.Model.Select
 import Srtla.Model.Sys
 import Srtla.Lemmas.SelectFrame
 import Srtla.Lemmas.SelShellFrame
+import Srtla.Lemmas.Audit2BGuard
 /-!
 # C12 — the stall guard is a routing penalty only; off means baseline
 
@@ -263,7 +264,21 @@ file cannot import `Sys.run`, whose file depends on this one). -/
 section shellEvents
 open Srtla.Link Srtla.Sys Srtla.SelShell
 
-/-- What `liveAcct` erases (so the statements below can be read without opening the lemma file). -/
+/-- What `liveAcct` erases (so the statements below can be read without opening the lemma file): the eight
+guard-private fields, the probe counter, the per-link copy of the connection timeout and the quality cache
+(multiplier and its time stamp).
+
+Audit round 2 — which of the ERASED fields are INPUTS of later liveness / phase decisions made by events that
+are not routing decisions:
+* `connTimeoutMs` is read by `is_timed_out` (housekeeping's tear-down decision, the pre-registration pick, every
+  selector).  It carries no guard decision: EVERY selection pass writes the configured value into every link
+  before it consults the guard switch (`apply_stall_gate`, first line), and `sync_conn_timeout` does the same
+  before every housekeeping pass — guard on or off, the copy is the same;
+* `qualMult` is read by housekeeping's `update_phase` (the `live ↔ degraded` verdict); `qualAt` only decides when
+  a SELECTION pass refreshes `qualMult`.  This one DOES carry a guard decision: the enhanced loop skips a
+  stall-gated link before it refreshes the cache, so a gated link keeps a stale multiplier —
+  `C12_guard_effect_on_later_phase` states the channel and shows that it ends at the `live` / `degraded` label;
+* the guard-private fields and the probe counter are read by selection passes and `send_stall_probes` only. -/
 theorem C12_liveAcct_spec (l : FLink F) :
     liveAcct l = { l with stallGated := false, latchedSince := 0, recoverySince := 0, gateEvents := 0,
                           probeCounter := 0, silencePulled := false, pullMark := none, silencePulls := 0,
@@ -285,6 +300,13 @@ theorem C12_fwdLink_spec (l : FLink F) (pkt : Link.Bytes) (seq : Option Nat) (no
     rw [(Hk.sendBatch_cases _ now fn).1]
   · rfl
 
+omit [Scalar F] in
+/-- A list that has every element at most as often as another is a sub-list in the `⊆` sense. -/
+theorem fnLe_subset {fn fn0 : List Nat} (h : ∀ a, fn.count a ≤ fn0.count a) : fn ⊆ fn0 := by
+  intro a ha
+  have h1 : 0 < fn.count a := List.count_pos_iff.2 ha
+  exact List.count_pos_iff.1 (Nat.lt_of_lt_of_le h1 (h a))
+
 /-- **Frame of a `client` event.**  `handle_srt_packet` (selection pass, best-quality override,
 forwarding, stall probes) moves the liveness / accounting fields of link `j` in exactly one of three ways:
 
@@ -296,8 +318,9 @@ forwarding, stall probes) moves the liveness / accounting fields of link `j` in 
    not of the guard's state;
 3. `j` is another link that this pass holds stall-gated (so: guard on, registered session, data packet,
    the link connected before and — unless the copy's flush failed and tore it down — latched or pulled
-   after): a duplicate probe copy was queued on it, again exactly as forwarding does (with whatever
-   injected send failures the earlier sends of this event left: `fn`).
+   after): a duplicate probe copy was queued on it, again exactly as forwarding does, with the injected send
+   failures the earlier sends of this event left: `fn ⊆ s.failNext`, no conn id more often than in `s.failNext`
+   (audit round 2: the fault list is no longer a free witness).
 
 So the guard influences liveness / accounting ONLY through where the datagram (and its sparse probe
 copies) is queued. -/
@@ -310,11 +333,14 @@ theorem C12_frame_client (s : Sys F) (pkt : Sys.Bytes) (now j : Nat) (l l' : FLi
       (Codec.getSrtSequenceNumberS pkt).isSome = true ∧ (clientTarget s pkt now).isSome = true ∧
       l.core.connected = true ∧
       (l'.core.connected = false ∨ l'.latchedSince ≠ 0 ∨ l'.silencePulled = true) ∧
-      ∃ fn, liveAcct l' = liveAcct (Hk.fwdLink l pkt (Codec.getSrtSequenceNumberS pkt) now fn).1) := by
+      ∃ fn, fn ⊆ s.failNext ∧ (∀ a, fn.count a ≤ s.failNext.count a) ∧
+        liveAcct l' = liveAcct (Hk.fwdLink l pkt (Codec.getSrtSequenceNumberS pkt) now fn).1) := by
   cases client_liveAcct s pkt now j l l' hl hl' with
   | idle ht h => exact .inl ⟨ht, h⟩
   | target ht h => exact .inr (.inl ⟨ht, h⟩)
-  | probe ht hne hreg hon hseq hsome hc hg h => exact .inr (.inr ⟨ht, hne, hreg, hon, hseq, hsome, hc, hg, h⟩)
+  | probe ht hne hreg hon hseq hsome hc hg h =>
+    obtain ⟨fn, hle, h⟩ := h
+    exact .inr (.inr ⟨ht, hne, hreg, hon, hseq, hsome, hc, hg, fn, fnLe_subset hle, hle, h⟩)
 
 /-- **The guard decides only the route.**  Run the same `client` event from the same state with the
 guard switch as it is (`s`) and set to `b` (`withGuard b s`; everything else identical).  For every link
@@ -328,20 +354,26 @@ theorem C12_guard_decides_only_the_route (s : Sys F) (b : Bool) (pkt : Sys.Bytes
     (ht : clientTarget s pkt now = some j ↔ clientTarget (withGuard b s) pkt now = some j) :
     liveAcct l₁ = liveAcct l₂ ∨
     (s.cfg.stallDeselect = true ∧ clientTarget s pkt now ≠ some j ∧
-      ∃ fn, liveAcct l₁ = liveAcct (Hk.fwdLink l pkt (Codec.getSrtSequenceNumberS pkt) now fn).1) ∨
+      ∃ fn, fn ⊆ s.failNext ∧ liveAcct l₁ = liveAcct (Hk.fwdLink l pkt (Codec.getSrtSequenceNumberS pkt) now fn).1) ∨
     (b = true ∧ clientTarget (withGuard b s) pkt now ≠ some j ∧
-      ∃ fn, liveAcct l₂ = liveAcct (Hk.fwdLink l pkt (Codec.getSrtSequenceNumberS pkt) now fn).1) := by
+      ∃ fn, fn ⊆ s.failNext ∧ liveAcct l₂ = liveAcct (Hk.fwdLink l pkt (Codec.getSrtSequenceNumberS pkt) now fn).1) := by
   have hl2 : (withGuard b s).links[j]? = some l := hl
   cases client_liveAcct s pkt now j l l₁ hl h₁ with
-  | probe ht1 _ _ hon _ _ _ _ h => exact .inr (.inl ⟨hon, ht1, h⟩)
+  | probe ht1 _ _ hon _ _ _ _ h =>
+    obtain ⟨fn, hle, h⟩ := h
+    exact .inr (.inl ⟨hon, ht1, fn, fnLe_subset hle, h⟩)
   | idle ht1 e1 =>
     cases client_liveAcct (withGuard b s) pkt now j l l₂ hl2 h₂ with
-    | probe ht2 _ _ hon _ _ _ _ h => exact .inr (.inr ⟨hon, ht2, h⟩)
+    | probe ht2 _ _ hon _ _ _ _ h =>
+      obtain ⟨fn, hle, h⟩ := h
+      exact .inr (.inr ⟨hon, ht2, fn, fnLe_subset hle, h⟩)
     | idle _ e2 => exact .inl (e1.trans e2.symm)
     | target ht2 _ => exact absurd (ht.2 ht2) ht1
   | target ht1 e1 =>
     cases client_liveAcct (withGuard b s) pkt now j l l₂ hl2 h₂ with
-    | probe ht2 _ _ hon _ _ _ _ h => exact .inr (.inr ⟨hon, ht2, h⟩)
+    | probe ht2 _ _ hon _ _ _ _ h =>
+      obtain ⟨fn, hle, h⟩ := h
+      exact .inr (.inr ⟨hon, ht2, fn, fnLe_subset hle, h⟩)
     | idle ht2 _ => exact absurd (ht.1 ht1) ht2
     | target _ e2 => exact .inl (e1.trans e2.symm)
 
@@ -442,8 +474,18 @@ theorem C12_off_stays_clear_run (s : Sys F) (evs : List Ev) (hoff : s.cfg.stallD
   them (the three cases of `C12_frame_client`);
 * if `e` is any other event, the whole link after the event is the same whether the guard is on or off:
   the event does not read the switch (`C12_guard_switch_elsewhere`).
-Hence the ONLY way the guard's decisions reach a link's liveness / accounting state, along any history,
-is the choice of the link a client datagram and its probe copies are queued on. -/
+So WITHIN ONE EVENT the guard's decisions reach a link's liveness / accounting fields only through the choice of
+the link a client datagram and its probe copies are queued on.
+
+What this does NOT say (audit round 2; the sentence "the ONLY way … along any history" that stood here was too
+strong): `liveAcct` also erases the timeout copy and the quality cache, and LATER events that are not routing
+decisions read them — `is_timed_out` reads `connTimeoutMs`, housekeeping's `update_phase` reads `qualMult`.  The
+second bullet compares two executions of ONE event from the SAME state; it does not compare two histories that
+differ in the guard switch, because after the first client event their states differ in the erased fields.  The
+timeout copy is written with the configured value by every pass whatever the guard does, so it carries nothing;
+the quality cache of a stall-gated link is not refreshed, and that can keep the link `degraded` where the
+guard-off history returns it to `live`: `C12_guard_effect_on_later_phase` states this one indirect channel, with
+a concrete pair of runs, and proves that it ends there — no routing decision tells the two phases apart. -/
 theorem C12_frame_run (s : Sys F) (pre : List Ev) (e : Ev) (j : Nat) (l l' : FLink F)
     (hl : (after s pre).links[j]? = some l) (hl' : (after s (pre ++ [e])).links[j]? = some l') :
     (∀ now pkt, e = .client now pkt →
@@ -455,7 +497,8 @@ theorem C12_frame_run (s : Sys F) (pre : List Ev) (e : Ev) (j : Nat) (l l' : FLi
         (Codec.getSrtSequenceNumberS pkt).isSome = true ∧ (clientTarget (after s pre) pkt now).isSome = true ∧
         l.core.connected = true ∧
         (l'.core.connected = false ∨ l'.latchedSince ≠ 0 ∨ l'.silencePulled = true) ∧
-        ∃ fn, liveAcct l' = liveAcct (Hk.fwdLink l pkt (Codec.getSrtSequenceNumberS pkt) now fn).1)) ∧
+        ∃ fn, fn ⊆ (after s pre).failNext ∧ (∀ a, fn.count a ≤ (after s pre).failNext.count a) ∧
+          liveAcct l' = liveAcct (Hk.fwdLink l pkt (Codec.getSrtSequenceNumberS pkt) now fn).1)) ∧
     ((∀ now pkt, e ≠ .client now pkt) →
       ∀ b, (step (withGuard b (after s pre)) e).1.links[j]? = some l') := by
   rw [after_snoc] at hl'
@@ -465,6 +508,60 @@ theorem C12_frame_run (s : Sys F) (pre : List Ev) (e : Ev) (j : Nat) (l l' : FLi
   · intro hne b
     rw [(step_withGuard b (after s pre) e hne).1]
     exact hl'
+
+/-! ### The one indirect channel: a gated link's quality cache and the later `live` / `degraded` verdict -/
+
+/-- `setPhase`, `unDegrade` (Lemmas/Audit2BGuard.lean), spelled out (definition check). -/
+theorem C12_phase_defs (p : Phase) (x : FLink F) (c : SLink F) :
+    Audit2B.setPhase p x = { x with core := { x.core with phase := p } } ∧
+    Audit2B.unDegrade c = { c with phase := Audit2B.unPhase c.phase } ∧
+    Audit2B.unPhase .degraded = .live ∧ Audit2B.unPhase .live = .live ∧
+    Audit2B.unPhase .registering = .registering ∧ ∀ n e, Audit2B.unPhase (.warming n e) = .warming n e :=
+  ⟨rfl, rfl, rfl, rfl, rfl, fun _ _ => rfl⟩
+
+/-- **The guard's effect on a LATER phase verdict — the one indirect channel, and where it ends** (audit round 2).
+
+`C12_frame_client` / `C12_frame_run` are about the fields `liveAcct` keeps, event by event.  Among the fields it
+erases, the quality cache is read later by an event that is not a routing decision: housekeeping's `update_phase`
+compares `qualMult` with 0.5 to move a link between `live` and `degraded`.  The guard reaches it as follows.
+
+1. MECHANISM (every state, datagram, link, both modes): a link that a `client` event leaves stall-gated has
+   EXACTLY the quality cache it went in with — the enhanced loop skips a gated link before it consults
+   `get_cached_quality_multiplier`, so the cache of a gated link is not refreshed, however stale.  (A link that is
+   not gated may have it refreshed; with the guard off no link is gated.)
+2. READER: `update_phase` reads, of the erased fields, only `qualMult`, and writes only the phase.  Two links
+   with the same liveness / accounting fields and the same cached multiplier come out with the same such fields;
+   with DIFFERENT multipliers they come out the same EXCEPT, possibly, that one is `live` where the other is
+   `degraded` (`warming` and `registering` links are not affected at all).
+3. WHERE IT ENDS: `live` and `degraded` carry the same weight (`phase_weight`: 1.0 both) and are both
+   schedulable; `select_connection_idx` (stall gate, classic and enhanced selector, every configuration) and the
+   best-quality override return the same decision and leave the same state when every `degraded` is read as
+   `live` (`unDegrade`); `select_pre_registration_connection` and `is_timed_out` do not read the phase.  So the
+   difference is visible in the `phase` field (telemetry, logs) and in the next `update_phase` verdict — never in
+   where a packet goes, nor in any window, in-flight set, stamp or reconnect state.
+
+`C12_guard_effect_witness` is a concrete pair of runs on which the channel is taken. -/
+theorem C12_guard_effect_on_later_phase :
+    (∀ (s : Sys F) (pkt : Sys.Bytes) (now j : Nat) (l l' : FLink F),
+      s.links[j]? = some l → (step s (.client now pkt)).1.links[j]? = some l' → l'.stallGated = true →
+      l'.qualMult = l.qualMult ∧ l'.qualAt = l.qualAt) ∧
+    (∀ (a b : FLink F) (now : Nat), liveAcct a = liveAcct b →
+      (a.qualMult = b.qualMult → liveAcct (a.updatePhase now) = liveAcct (b.updatePhase now)) ∧
+      ∃ p, liveAcct (a.updatePhase now) = liveAcct (Audit2B.setPhase p (b.updatePhase now)) ∧
+        (p = (b.updatePhase now).core.phase ∨
+         ((p = .live ∨ p = .degraded) ∧
+          ((b.updatePhase now).core.phase = .live ∨ (b.updatePhase now).core.phase = .degraded)))) ∧
+    ((phaseWeight .live : F) = phaseWeight .degraded ∧
+      ∀ c : SLink F, schedulable (Audit2B.unDegrade c) = schedulable c) ∧
+    (∀ (ls : List (SLink F)) (last : Option Nat) (now : Nat) (cfg : Cfg),
+      selectIdx (ls.map Audit2B.unDegrade) last now cfg =
+        ((selectIdx ls last now cfg).1.map Audit2B.unDegrade, (selectIdx ls last now cfg).2)) ∧
+    (∀ (ls : List (SLink F)) (now : Nat),
+      bestQualityEligible (ls.map Audit2B.unDegrade) now = bestQualityEligible ls now) :=
+  ⟨fun s pkt now j l l' hl hl' hg => Audit2B.client_gated_cache s pkt now j l l' hl hl' hg,
+   fun a b now h => Audit2B.updatePhase_reads a b now h,
+   ⟨rfl, Audit2B.schedulable_unDegrade⟩,
+   Audit2B.selectIdx_unDegrade, Audit2B.bestQualityEligible_unDegrade⟩
 
 /-! ### non-vacuity -/
 
@@ -486,6 +583,51 @@ def exShell : Sys Int :=
 
 /-- An SRT data packet with sequence number 9. -/
 def exData9 : List UInt8 := [0, 0, 0, 9, 0, 0, 0, 0, 1, 2, 3, 4, 9, 9, 9, 9, 42]
+
+/-- `exShell` with link 0 `degraded` on a stale, low quality cache (0.3, computed at time 0; fixed-point 1/1000)
+and link 1 with the full window, so that link 1 is the routing target with the guard on AND off. -/
+def exPhase : Sys Int :=
+  { exShell with links := exShell.links.mapIdx fun i l =>
+      if i = 0 then { l with core := { l.core with phase := .degraded }, qualMult := 300, qualAt := 0 }
+      else { l with core := { l.core with window := 60000 } } }
+
+/-- **The channel of `C12_guard_effect_on_later_phase`, taken** (decide-checked pair of runs that differ ONLY in
+the guard switch): one routed datagram at 5000, one housekeeping tick at 5010.
+* Both runs route the datagram to link 1.
+* Guard ON: the pass latches and gates link 0 (stale delivery proof), the enhanced loop skips it, its cache stays
+  `(0.3 @ 0)`; the tick's `update_phase` sees `0.3 < 0.5` and keeps link 0 `degraded`.
+* Guard OFF: link 0 is scored, its cache is refreshed to `(1.1 @ 5000)` (no NAKs inside the 30 s start-up window);
+  the tick returns it to `live`.
+* Apart from that label, the guard-private fields and the cache, the two end states agree: the whole accounting core
+  with the phase masked, queue, keepalive stamp, reconnection state, batch regime of BOTH links. -/
+theorem C12_guard_effect_witness :
+    @clientTarget Int fixScalar exPhase exData9 5000 = some 1 ∧
+    @clientTarget Int fixScalar (@withGuard Int false exPhase) exData9 5000 = some 1 ∧
+    ((@step Int fixScalar exPhase (.client 5000 exData9)).1.links.map fun l => (l.stallGated, l.qualMult, l.qualAt)) =
+      [(true, 300, 0), (false, 1100, 5000)] ∧
+    ((@step Int fixScalar (@withGuard Int false exPhase) (.client 5000 exData9)).1.links.map fun l =>
+      (l.stallGated, l.qualMult, l.qualAt)) = [(false, 1100, 5000), (false, 1100, 5000)] ∧
+    (@after Int fixScalar exPhase [.client 5000 exData9, .hk 5010]).links.map (·.core.phase) = [.degraded, .live] ∧
+    (@after Int fixScalar (@withGuard Int false exPhase) [.client 5000 exData9, .hk 5010]).links.map (·.core.phase)
+      = [.live, .live] ∧
+    ((@after Int fixScalar exPhase [.client 5000 exData9, .hk 5010]).links.map fun l =>
+        ({ l.core with phase := .live } : Conn)) =
+      ((@after Int fixScalar (@withGuard Int false exPhase) [.client 5000 exData9, .hk 5010]).links.map fun l =>
+        ({ l.core with phase := .live } : Conn)) ∧
+    ((@after Int fixScalar exPhase [.client 5000 exData9, .hk 5010]).links.map fun l =>
+        (l.queue, l.lastKeepaliveSent, l.established, l.lastAttemptMs)) =
+      ((@after Int fixScalar (@withGuard Int false exPhase) [.client 5000 exData9, .hk 5010]).links.map fun l =>
+        (l.queue, l.lastKeepaliveSent, l.established, l.lastAttemptMs)) ∧
+    ((@after Int fixScalar exPhase [.client 5000 exData9, .hk 5010]).links.map fun l =>
+        (l.failCount, l.graceDeadline, l.regime, l.lastFlushMs, l.connTimeoutMs)) =
+      ((@after Int fixScalar (@withGuard Int false exPhase) [.client 5000 exData9, .hk 5010]).links.map fun l =>
+        (l.failCount, l.graceDeadline, l.regime, l.lastFlushMs, l.connTimeoutMs)) := by
+  refine ⟨by decide +kernel, by decide +kernel, by decide +kernel, by decide +kernel, by decide +kernel,
+    by decide +kernel, by decide +kernel, by decide +kernel, by decide +kernel⟩
+
+/-- The mechanism clause of `C12_guard_effect_on_later_phase` instantiated on the run above: link 0 comes out of
+the client event gated, hence with the cache it went in with. -/
+example := (@C12_guard_effect_on_later_phase Int fixScalar).1 exPhase exData9 5000 0 _ _ rfl rfl (by decide +kernel)
 
 /-- Cases 1 and 2 of `C12_frame_client`, and `C12_guard_decides_only_the_route` with DIFFERENT routes:
 guard on → target 1, link 0 is latched + gated by the pass but its queue, log, in-flight count, window,
